@@ -259,6 +259,7 @@ func runC12(c *wk.Ctx) {
 	n := c.N(6000, 600000)
 	c.Cases(n, func(idx int64, r *wk.Rand) {
 		cfg := gen.Full()
+		cfg.TypedVariants = true
 		cfg.GoodDefaults = true
 		var shape *gen.Shape
 		if tricky := gen.TrickyShapes(); idx < int64(2*len(tricky)) {
